@@ -273,3 +273,31 @@ def analyse_alloc_roots(mir_text):
     if "(error" in p.stdout or res not in ("sat", "unsat"):
         res = "error"
     return {"res": res, "sites": out, "bad": [s_ for s_ in out if not s_["marking_args_from_it"]], "dt": time.time() - t0}
+
+
+# E3u (part of C04): counting free slots does not touch their contents.
+# `FreeList::recount` runs after EVERY marking pass, including the recycler's partial one (which marks only what the
+# global roots reach: thread-local and host-rooted storage is unmarked at that moment although it is reachable).  It may
+# therefore only COUNT: no write access to a slot (`ShareableMut::write`), no `mem::replace` / `mem::take` on its value.
+SLOT_WRITE = re.compile(r"(ShareableMut<.*>>::write|RwLock::<.*>::write|(?:^|::)mem::(replace|take|swap)(::<.*>)?)$")
+
+
+def analyse_recount(mir_text):
+    funcs = mir.parse(mir_text, lambda n: n.endswith("::recount") and "closed::" in n)
+    out = []
+    for key, f in funcs.items():
+        if "FreeList" not in f.args_s:
+            continue
+        writes = [b.n for b in f.blocks.values() if not b.cleanup and b.term.get("kind") == "call" and SLOT_WRITE.search(b.term["callee"].strip())]
+        reads = [b.n for b in f.blocks.values() if not b.cleanup and b.term.get("kind") == "call" and re.search(r"is_reachable$", b.term["callee"].strip())]
+        out.append({"function": f.name[-60:], "writes": writes, "reads_mark": reads})
+    tbl = "(_ bv0 8)"
+    for i, s_ in enumerate(out):
+        tbl = "(ite (= c (_ bv%d 8)) (_ bv%d 8) %s)" % (i, 1 if s_["writes"] else 0, tbl)
+    q = "(set-logic QF_BV)\n(declare-const c (_ BitVec 8))\n(assert (bvult c (_ bv%d 8)))\n(assert (= %s (_ bv1 8)))\n(check-sat)\n" % (max(1, len(out)), tbl)
+    t0 = time.time()
+    p = subprocess.run(["z3", "-in", "-T:30"], input=q, capture_output=True, text=True)
+    res = p.stdout.strip().split("\n")[0] if p.stdout.strip() else "error"
+    if "(error" in p.stdout or res not in ("sat", "unsat"):
+        res = "error"
+    return {"res": res, "impls": out, "dt": time.time() - t0}
